@@ -781,6 +781,15 @@ pub fn check_main(args: &[String]) -> i32 {
         unknown += (by_sig.len() - max_processed) as u64;
     }
     if let Some(runs) = &nondet_fatal {
+        if unknown == 0 && std::env::var("SDSIM_NO_SEAM_PREEMPT").is_err() {
+            // Threads of the code under test block on each other's locks while parked at a seam
+            // (e.g. a process-wide generator behind a mutex): the hand-over order of such a lock is
+            // decided by the OS, not by the simulator. No violation was seen; repeat the whole check
+            // with scheduling points at operation boundaries only, which is deterministic again.
+            println!("NOTE runs {:?} are not deterministic with scheduling points inside entropy / clock requests (threads of the code under test block on each other's locks there); repeating the check with scheduling points at operation boundaries only", runs);
+            std::env::set_var("SDSIM_NO_SEAM_PREEMPT", "1");
+            return check_main(args);
+        }
         if unknown == 0 {
             println!("HARNESS-ERROR: nondeterminism detected: runs {:?} produced different event logs in two fresh processes", runs);
             return 2;
@@ -843,6 +852,7 @@ pub fn check_main(args: &[String]) -> i32 {
             "determinism_sample": {"runs_reexecuted_in_other_processes": det.agg.loghashes.len(), "event_log_hash_mismatches": det_mismatch.len(), "cross_world_state_in_code_under_test": cross_world_state},
             "worker_crashes_or_hangs": agg.crashes.len(),
             "known_findings_hit": known_hits.keys().collect::<Vec<_>>(),
+            "seam_level_preemption": std::env::var("SDSIM_NO_SEAM_PREEMPT").is_err(),
             "violation_signatures_seen": by_sig.iter().map(|(k, v)| json!({"signature": k, "runs": v.2})).collect::<Vec<_>>(),
         },
         "assumptions": cfg.assumptions,
